@@ -198,7 +198,7 @@ func (r *rwRT) ruleTmplConsumer() {
 			construct := fmt.Sprintf("for v %s range <%s>", map[string]string{"DEFINE": ":=", "ASSIGN": "="}[tok], opKind)
 			var live []Outcome
 			for _, o := range outs {
-				if !o.Panicked {
+				if !o.Panicked && !notAnIterator(o) {
 					live = append(live, o)
 				}
 			}
@@ -272,7 +272,7 @@ func (r *rwRT) ruleTmplConsumerLhs() {
 		var firstErr error
 		live := 0
 		for _, o := range outs {
-			if o.Panicked {
+			if o.Panicked || notAnIterator(o) {
 				continue
 			}
 			live++
@@ -313,7 +313,7 @@ func (r *rwRT) ruleTmplConsumerNoVar() {
 	construct := "for range <CallExpr> (no loop variable)"
 	var live []Outcome
 	for _, o := range outs {
-		if !o.Panicked {
+		if !o.Panicked && !notAnIterator(o) {
 			live = append(live, o)
 		}
 	}
@@ -980,4 +980,15 @@ func (r *rwRT) runYieldFunc() (o Outcome, bodyRef, fieldRef Ref, pos string, err
 		return Outcome{}, bodyRef, fieldRef, pos, fmt.Errorf("rewriteYieldFunc on a symbolic generator: expected one path, got %d", len(outs))
 	}
 	return outs[0], bodyRef, fieldRef, pos, nil
+}
+
+// notAnIterator: a path of the consumer lowering on which the question "is the operand an iterator" was asked and
+// answered no (the lowering may ask it itself and hand back nothing): not a path of a consumer loop.
+func notAnIterator(o Outcome) bool {
+	for _, l := range o.St.Labels {
+		if strings.HasPrefix(l, "isIterator(") && strings.HasSuffix(l, "=false") {
+			return true
+		}
+	}
+	return false
 }
